@@ -3,6 +3,7 @@
 import os, re, json, random, subprocess, collections, copy
 import o2olib as L
 import gen
+import rt
 
 PROPS = {
     "C01": {"profiles": ["struct-flat", "member-instrs", "shape-change"], "n_quick": 1800},
@@ -846,10 +847,28 @@ def oracle_c14(cases, seed, thorough):
     return fails, n
 
 
+RT_FAMILY = {"C01": "flat", "C07": "flat", "C08": "flat", "C02": "enum", "C03": "tree", "C09": "prim"}
+
+
+def oracle_rt(prop, seed, thorough):
+    fam = RT_FAMILY[prop]
+    fails, nmods, ntests, known = rt.campaign(fam, seed * 100 + int(prop[1:]), 25 if not thorough else 250)
+    return fails, nmods, ntests, len(known)
+
+
 def run_oracle(prop, cases, results, seed, thorough, disagreements):
     out = {"name": None, "evaluated": 0, "failures": []}
     try:
-        if prop == "C16":
+        if prop in RT_FAMILY:
+            rf, nmods, ntests, nknown = oracle_rt(prop, seed, thorough)
+            out["runtime_tie"] = {"family": RT_FAMILY[prop], "programs_compiled_and_run": nmods, "conversions_compared": ntests,
+                                  "skipped_designed_in_known_defect_zone": nknown,
+                                  "what": "designed closed programs through the real #[derive(o2o)] (rustc proc_macro bridge), printed values vs the documented meaning"}
+            out["failures"] += rf
+        if prop in ("C01", "C02", "C03", "C08", "C09"):
+            out["name"] = "runtime tie: compile-and-run of designed programs vs documented meaning"
+            out["evaluated"] = out["runtime_tie"]["conversions_compared"]
+        elif prop == "C16":
             out["name"] = "catch_unwind on the real derive for every case"
             out["failures"] = oracle_c16(cases, results)
             out["evaluated"] = len(cases)
@@ -895,8 +914,10 @@ def run_oracle(prop, cases, results, seed, thorough, disagreements):
             out["name"] = "every lifetime used in a real impl header is declared by that impl"
             out["failures"], out["evaluated"] = oracle_c11(cases, seed, thorough)
         elif prop == "C07":
-            out["name"] = "owned vs by-reference bodies of symmetric mappings on the real output"
-            out["failures"], out["evaluated"] = oracle_c07(cases, seed, thorough)
+            out["name"] = "owned vs by-reference bodies of symmetric mappings on the real output + runtime tie (all six flavours of one mapping on equal inputs)"
+            f7, n7 = oracle_c07(cases, seed, thorough)
+            out["failures"] += f7
+            out["evaluated"] = n7 + out["runtime_tie"]["conversions_compared"]
         else:
             out["name"] = "none beyond the correspondence (a broken tie is reported without a failing input)"
     except Exception as e:  # an oracle that cannot run must not hide a result
